@@ -127,3 +127,20 @@ package codegen
 //@   purefn adjust
 //@   traverse remap k ir.ExpressionHandle adjust($)
 //@   nopanic
+//
+// ---- statement-tree walkers descend into every nested block -------------------------------
+// (type-derived: for the statement handled by one iteration every field of type
+// Block of every statement kind is passed to the recursive call; see ir/zz_verif_contracts.go)
+//
+//@ func (*Writer).countStmtExprRefs
+//@   mode bv
+//@   tags C04
+//@   ghostcall countStmtExprRefs visitedBlock
+//@   traverse stepmark 1 stmts ir.Block visitedBlock($)
+//
+//@ func (*Writer).walkStmts
+//@   mode bv
+//@   tags C04
+//@   ghostcall walkStmts visitedBlock
+//@   traverse stepmark 1 stmts ir.Block visitedBlock($)
+//
